@@ -348,7 +348,44 @@ impl Observer for Obs {
             return Ok(());
         }
         self.catch_up(w)?;
-        match pick(op[2], 9) {
+        match pick(op[2], 10) {
+            9 => {
+                // A listed external sender that ignores the sender rules: a member's Update proposal body, re-framed as coming
+                // from the external sender and signed with its key. Members may refuse it outright; if they cache it, the next
+                // committer has to drop it like any other invalid by-reference proposal (never a panic).
+                let Some((ext_sk, ext_id)) = w.external_sender.clone() else { return Ok(()) };
+                use mls_rs::extension::built_in::ExternalSendersExt;
+                let members = w.members();
+                let m = members[pick(op[3], members.len())];
+                let Some(es) = w.parties[m].g().context().extensions.get_as::<ExternalSendersExt>().ok().flatten() else { return Ok(()) };
+                let Some(idx) = es.allowed_senders.iter().position(|x| *x == ext_id) else { return Ok(()) };
+                let mut clone = w.parties[m].g().clone();
+                let Ok(genuine) = guard(|| clone.propose_update(vec![])) else { return Ok(()) };
+                let gb = genuine.to_bytes().expect("enc");
+                let csp = w.parties[m].suite_provider(w.cfg.suite);
+                let Some(bytes) = crate::forge::reframe_proposal_as_external(&csp, &gb, idx as u32, &ext_sk) else { return Ok(()) };
+                let t = w.now();
+                let mut cached_by = 0;
+                for r in members.iter().copied() {
+                    let party = &mut w.parties[r];
+                    match guard(|| party.gm().process_incoming_message_with_time(MlsMessage::from_bytes(&bytes)?, t)) {
+                        Ok(_) => cached_by += 1,
+                        Err(e) if e.is_panic() => return Err(panic_failure(P, "process_incoming_message(update proposal from an external sender)", &e)),
+                        Err(e) => self.ev.class(&format!("external_update_proposal_refused_at_receipt:{}", e.class())),
+                    }
+                }
+                if cached_by > 0 {
+                    self.ev.class("external_update_proposal_cached_by_members");
+                }
+                // the observer sees it too
+                if let Some(g) = self.group.as_mut() {
+                    match guard(|| g.process_incoming_message_with_time(MlsMessage::from_bytes(&bytes)?, t)) {
+                        Err(e) if e.is_panic() => return Err(panic_failure(P, "observer.process_incoming_message(update proposal from an external sender)", &e)),
+                        _ => {}
+                    }
+                }
+                self.ev.nontrivial(&(w.epoch, "external update proposal"));
+            }
             7 | 8 => {
                 // a prospective member asks to be added (sender type new_member_proposal)
                 let members = w.members();
